@@ -25,7 +25,13 @@ def run(ctx):
     E.r_invalid_window(prog, rep)
     E.r_cancel_on_exit(prog, rep)
     E.r_cancel_delegates(prog, rep)
+    E.r_outstanding_count(prog, rep)      # the drain waits for this count to reach zero
+    E.r_cv_protocol(prog, rep)
     E.r_epoch_persist(prog, rep)
+    from rules import C04
+    C04.engine_txn_pairing(prog, rep.rule("R-TXN-PAIRING", "a successful buildStarted is followed on every path out of build() — the early exit of a build "
+                                            "cancelled before it starts included — by buildComplete (scope guard registered right after the start, run on every exit): an open "
+                                            "transaction makes every later build on this engine fail and locks the database for other engines", floor=4), with_epoch=False)
     T.r_complete_once(prog, rep)
     T.r_frontend_reset(prog, rep)
 from rules.engine_variants import C05 as VARIANTS  # noqa: E402
